@@ -178,7 +178,7 @@ func (t *trigger) ForceEpochStart(round uint64) {
 
 		return
 	}
-	if t.nextEpochStartRound-t.currEpochStartRound < t.minRoundsBetweenEpochs {
+	if t.nextEpochStartRound < t.currEpochStartRound+t.minRoundsBetweenEpochs {
 		t.nextEpochStartRound = t.currEpochStartRound + t.minRoundsBetweenEpochs
 		log.Debug("can not force epoch start on provided round",
 			"provided round", round, "computed round", t.nextEpochStartRound)
@@ -200,7 +200,8 @@ func (t *trigger) Update(round uint64, nonce uint64) {
 
 	isZeroEpochEdgeCase := nonce < minimumNonceToStartEpoch
 	isNormalEpochStart := t.currentRound > t.currEpochStartRound+t.roundsPerEpoch
-	isWithEarlyEndOfEpoch := t.currentRound >= t.nextEpochStartRound
+	hasMinRoundsInEpoch := t.currentRound >= t.currEpochStartRound+t.minRoundsBetweenEpochs
+	isWithEarlyEndOfEpoch := t.currentRound >= t.nextEpochStartRound && hasMinRoundsInEpoch
 	shouldTriggerEpochStart := (isNormalEpochStart || isWithEarlyEndOfEpoch) && !isZeroEpochEdgeCase
 	if shouldTriggerEpochStart {
 		t.epoch += 1
